@@ -308,10 +308,167 @@ def order_compares(tree):
     return tree
 
 
+def inline_condition_temps(tree):
+    """``x = EXPR`` directly followed by ``if x:`` (or ``if not x:``) is
+    read as ``if EXPR:`` when x is a plain local that occurs nowhere else in
+    the function (naming a condition changes nothing)."""
+    for fn in ast.walk(tree):
+        if not isinstance(fn, (ast.FunctionDef, ast.AsyncFunctionDef)):
+            continue
+        counts = {}
+        for n in ast.walk(fn):
+            if isinstance(n, ast.Name):
+                counts[n.id] = counts.get(n.id, 0) + 1
+        declared = set(_params(fn))
+        for n in ast.walk(fn):
+            if isinstance(n, (ast.Global, ast.Nonlocal)):
+                declared.update(n.names)
+        for n in ast.walk(fn):
+            for fld in ("body", "orelse", "finalbody"):
+                blk = getattr(n, fld, None)
+                if not (isinstance(blk, list) and len(blk) >= 2 and
+                        isinstance(blk[0], ast.stmt)):
+                    continue
+                i = 0
+                while i < len(blk) - 1:
+                    a, b = blk[i], blk[i + 1]
+                    if isinstance(a, ast.Assign) and len(a.targets) == 1 \
+                            and isinstance(a.targets[0], ast.Name) and \
+                            isinstance(b, ast.If):
+                        nm = a.targets[0].id
+                        t = b.test
+                        neg = isinstance(t, ast.UnaryOp) and isinstance(
+                            t.op, ast.Not)
+                        core = t.operand if neg else t
+                        if isinstance(core, ast.Name) and core.id == nm \
+                                and counts.get(nm) == 2 and \
+                                nm not in declared:
+                            if neg:
+                                t.operand = a.value
+                            else:
+                                b.test = a.value
+                            del blk[i]
+                            continue
+                    i += 1
+
+
+class _Shapes(ast.NodeTransformer):
+    """small canonical spellings: a loop over a list display is a loop over
+    the tuple; nested ifs without else are one if over the conjunction; a
+    lone ``else: pass`` is no else; ``'{}..'.format(a)`` is ``'%s..' % a``"""
+
+    def visit_For(self, node):
+        self.generic_visit(node)
+        if isinstance(node.iter, ast.List) and not any(
+                isinstance(e, ast.Starred) for e in node.iter.elts):
+            node.iter = ast.copy_location(
+                ast.Tuple(node.iter.elts, ast.Load()), node.iter)
+        if len(node.orelse) == 1 and isinstance(node.orelse[0], ast.Pass):
+            node.orelse = []
+        return node
+
+    def visit_If(self, node):
+        self.generic_visit(node)
+        if len(node.orelse) == 1 and isinstance(node.orelse[0], ast.Pass):
+            node.orelse = []
+        if not node.orelse and len(node.body) == 1 and isinstance(
+                node.body[0], ast.If) and not node.body[0].orelse:
+            inner = node.body[0]
+            vals = []
+            for t in (node.test, inner.test):
+                if isinstance(t, ast.BoolOp) and isinstance(t.op, ast.And):
+                    vals.extend(t.values)
+                else:
+                    vals.append(t)
+            node.test = ast.copy_location(
+                ast.BoolOp(ast.And(), vals), node.test)
+            node.body = inner.body
+        return node
+
+    def visit_Call(self, node):
+        self.generic_visit(node)
+        if isinstance(node.func, ast.Attribute) and \
+                node.func.attr == "format" and isinstance(
+                    node.func.value, ast.Constant) and isinstance(
+                        node.func.value.value, str) and not node.keywords \
+                and node.args and not any(isinstance(a, ast.Starred)
+                                          for a in node.args):
+            text = node.func.value.value
+            import re
+            if "%" in text or re.search(r"\{[^}]", text) or \
+                    "{{" in text or "}}" in text or \
+                    text.count("{}") != len(node.args):
+                return node
+            right = node.args[0] if len(node.args) == 1 else ast.Tuple(
+                list(node.args), ast.Load())
+            new = ast.BinOp(ast.Constant(text.replace("{}", "%s")),
+                            ast.Mod(), right)
+            return ast.fix_missing_locations(ast.copy_location(new, node))
+        return node
+
+
+def _ifexp_assignments(tree):
+    """``if c: x = a / else: x = b`` (one plain assignment to the same name
+    on either side) is read as ``x = a if c else b``"""
+    for n in ast.walk(tree):
+        for fld in ("body", "orelse", "finalbody"):
+            blk = getattr(n, fld, None)
+            if not (isinstance(blk, list) and blk and
+                    isinstance(blk[0], ast.stmt)):
+                continue
+            for i, st in enumerate(blk):
+                if isinstance(st, ast.If) and len(st.body) == 1 and \
+                        len(st.orelse) == 1 and all(
+                            isinstance(x, ast.Assign) and len(x.targets) == 1
+                            and isinstance(x.targets[0], ast.Name)
+                            for x in (st.body[0], st.orelse[0])) and \
+                        st.body[0].targets[0].id == \
+                        st.orelse[0].targets[0].id:
+                    new = ast.Assign(
+                        [st.body[0].targets[0]],
+                        ast.IfExp(st.test, st.body[0].value,
+                                  st.orelse[0].value))
+                    blk[i] = ast.fix_missing_locations(
+                        ast.copy_location(new, st))
+
+
+def _denest_else(tree):
+    """``if c: A; return / else: B`` is read as ``if c: A; return`` followed
+    by ``B`` (the else of a branch that cannot fall through is the rest of
+    the block)"""
+    for n in ast.walk(tree):
+        for fld in ("body", "orelse", "finalbody"):
+            blk = getattr(n, fld, None)
+            if not (isinstance(blk, list) and blk and
+                    isinstance(blk[0], ast.stmt)):
+                continue
+            changed = True
+            while changed:
+                changed = False
+                for i, st in enumerate(blk):
+                    if isinstance(st, ast.If) and st.orelse and st.body and \
+                            isinstance(st.body[-1], (ast.Return, ast.Raise,
+                                                     ast.Continue,
+                                                     ast.Break)):
+                        rest = st.orelse
+                        st.orelse = []
+                        blk[i + 1:i + 1] = rest
+                        changed = True
+                        break
+
+
+def canonical_shapes(tree):
+    _Shapes().visit(tree)
+    _ifexp_assignments(tree)
+    _denest_else(tree)
+
+
 def pre_normalise(tree):
     plain_assignments(tree)
     strip_noops(tree)
     inline_return_temps(tree)
+    inline_condition_temps(tree)
+    canonical_shapes(tree)
     percent_formatting(tree)
 
 
